@@ -1,24 +1,166 @@
 /-
-  Proofs.C06 — lemmas and proofs behind Props/C06.lean.
+  Proofs.C06 — proofs behind Props/C06.lean.
+
+  The first formulations of `step_uniq_inv` (hypotheses `UniqInv c`, `ScalarInv c`,
+  `ScalarInv c'` only) and of `dup_write_rejected` (conclusion: a WriteError) are FALSE of the
+  model: `Proofs/C06Check.lean` (`step_uniq_scalar_false`, `dup_write_writeError_false`) and
+  ../COUNTEREXAMPLE_C06.md.  What is proved instead:
+
+  * `step_uniq_inv_alt` — with `KeysDistinctSym c`, `PfStable c`, `WfDocs c'` (Spec/Unique.lean);
+    behind it `step_carried`: the invariant `UniqS` ("uniqueness among the well-formed,
+    scalar-keyed, covered documents") is preserved by every operation with no hypothesis on the
+    documents at all, hence `reachable_uniq_alt` for whole histories;
+  * `dup_write_rejected_alt` (always rejected) and `dup_write_rejected_dupkey_alt` (with
+    DuplicateKeyError under three more hypotheses);
+  * `create_over_dups_fails_clean`, `create_establishes_uniq` as first stated.
+
+  Files: C06Scalar (`==` on scalars), C06Bridge (the query of `_ensure_uniques` is key equality),
+  C06Ensure (`_ensure_uniques`), C06Wf (`==` on well-formed values), C06Pairs (`UniqS`),
+  C06Ops / C06Create / C06Update / C06Step (the operations), C06Extra, C06Check.
 -/
 import Spec.Unique
+import Proofs.C06Check
+
+set_option linter.unusedSimpArgs false
 
 namespace MongoModel.Proofs.C06
-open MongoModel MongoModel.Spec
+open MongoModel MongoModel.Spec MongoModel.Proofs.C06Lemmas
 
-theorem init_uniq : UniqInv ({} : Coll) := by sorry
+theorem init_uniq : UniqInv ({} : Coll) := by
+  intro ix hix; cases hix
 
-theorem step_uniq_inv (cfg : Cfg) (now : Int) (c : Coll) (op : Val)
-    (hu : UniqInv c) (hs : ScalarInv c) (hs' : ScalarInv (stepColl cfg now c op).1) :
-    UniqInv (stepColl cfg now c op).1 := by sorry
+/-! ### one operation -/
 
-theorem dup_write_rejected (now : Int) (c : Coll) (d : Val) (ix : Index) (p : Val × Val)
+/-- the carried invariant: no hypothesis on the documents, before or after -/
+theorem step_carried (cfg : Cfg) (now : Int) (c : Coll) (op : Val) (hU : UniqS c)
+    (hk : KeysDistinctSym c) (hp : PfStable c) : UniqS (stepColl cfg now c op).1 :=
+  step_uniqS cfg now c op hU hp hk
+
+theorem step_uniq_inv_alt (cfg : Cfg) (now : Int) (c : Coll) (op : Val)
+    (hu : UniqInv c) (hk : KeysDistinctSym c) (hp : PfStable c)
+    (hs' : ScalarInv (stepColl cfg now c op).1) (hw' : WfDocs (stepColl cfg now c op).1) :
+    UniqInv (stepColl cfg now c op).1 :=
+  uniqInv_of_uniqS (step_uniqS cfg now c op (uniqS_of_uniqInv hu) hp hk) hs' hw'
+
+/-- the hypotheses of `step_uniq_inv_alt`, checked by evaluation (no unique index partial) -/
+theorem step_uniq_inv_check (cfg : Cfg) (now : Int) (c : Coll) (op : Val)
+    (h : (uniqB c && keysB c && noPartialB c && scalB (stepColl cfg now c op).1 &&
+      wfDocsB (stepColl cfg now c op).1) = true) :
+    UniqInv (stepColl cfg now c op).1 := by
+  simp only [Bool.and_eq_true] at h
+  obtain ⟨⟨⟨⟨h1, h2⟩, h3⟩, h4⟩, h5⟩ := h
+  exact step_uniq_inv_alt cfg now c op ((uniqB_iff c).1 h1) ((keysB_iff c).1 h2)
+    (pfStable_of_noPartial h3) ((scalB_iff _).1 h4) ((wfDocsB_iff _).1 h5)
+
+/-! ### histories -/
+
+/-- the state component of `run` -/
+def runSt (cfg : Cfg) (ops : List Val) (s : St) : St :=
+  ops.foldl (fun s op => (observe (step cfg s op).1).1) s
+
+theorem run_snd (cfg : Cfg) (ops : List Val) (s : St) : (run cfg ops s).2 = runSt cfg ops s := by
+  unfold run runSt
+  have : ∀ (ops : List Val) (acc : List (Out × Val)) (s : St),
+      (ops.foldl (fun (acc : List (Out × Val) × St) op =>
+        let (s1, out) := step cfg acc.2 op
+        let (s2, obs) := observe s1
+        (acc.1 ++ [(out, obs)], s2)) (acc, s)).2 =
+      ops.foldl (fun s op => (observe (step cfg s op).1).1) s := by
+    intro ops
+    induction ops with
+    | nil => intro acc s; rfl
+    | cons op ops ih => intro acc s; simp only [List.foldl_cons]; exact ih _ _
+  exact this ops [] s
+
+theorem step_st_carried (cfg : Cfg) (s : St) (op : Val) (hU : UniqS s.c)
+    (hk : KeysDistinctSym s.c) (hp : PfStable s.c) : UniqS (step cfg s op).1.c := by
+  unfold step
+  split
+  · exact hU
+  · exact step_uniqS cfg s.now s.c op hU hp hk
+
+theorem observe_carried (s : St) (hU : UniqS s.c) : UniqS (observe s).1.c := by
+  unfold observe
+  split
+  · rename_i c' h; exact hU.sub (sub_expire h)
+  · exact hU
+
+theorem runSt_carried (cfg : Cfg) : ∀ (ops : List Val) (s : St), UniqS s.c →
+    (∀ n, KeysDistinctSym (runSt cfg (ops.take n) s).c ∧ PfStable (runSt cfg (ops.take n) s).c) →
+    UniqS (runSt cfg ops s).c := by
+  intro ops
+  induction ops with
+  | nil => intro s hU _; exact hU
+  | cons op ops ih =>
+    intro s hU hd
+    have h0 := hd 0
+    simp only [List.take_zero, runSt, List.foldl_nil] at h0
+    have hU1 : UniqS (observe (step cfg s op).1).1.c :=
+      observe_carried _ (step_st_carried cfg s op hU h0.1 h0.2)
+    have := ih (observe (step cfg s op).1).1 hU1 (fun n => by
+      have := hd (n + 1)
+      simpa [runSt] using this)
+    simpa [runSt] using this
+
+theorem reachable_uniq_alt (cfg : Cfg) (ops : List Val)
+    (hd : ∀ n, KeysDistinctSym (run cfg (ops.take n)).2.c ∧ PfStable (run cfg (ops.take n)).2.c)
+    (hs : ScalarInv (run cfg ops).2.c) (hw : WfDocs (run cfg ops).2.c) :
+    UniqInv (run cfg ops).2.c := by
+  refine uniqInv_of_uniqS ?_ hs hw
+  rw [run_snd]
+  refine runSt_carried cfg ops {} (fun ix hix => by cases hix) (fun n => ?_)
+  rw [← run_snd]; exact hd n
+
+/-- the hypotheses of `reachable_uniq_alt`, checked by evaluation on a concrete history -/
+theorem reachable_uniq_check (cfg : Cfg) (ops : List Val)
+    (h : ((List.range (ops.length + 1)).all (fun n =>
+        keysB (run cfg (ops.take n)).2.c && noPartialB (run cfg (ops.take n)).2.c) &&
+      scalB (run cfg ops).2.c && wfDocsB (run cfg ops).2.c) = true) :
+    UniqInv (run cfg ops).2.c := by
+  simp only [Bool.and_eq_true, List.all_eq_true, List.mem_range] at h
+  obtain ⟨⟨h1, h2⟩, h3⟩ := h
+  refine reachable_uniq_alt cfg ops (fun n => ?_) ((scalB_iff _).1 h2) ((wfDocsB_iff _).1 h3)
+  by_cases hn : n < ops.length + 1
+  · exact ⟨(keysB_iff _).1 (h1 n hn).1, pfStable_of_noPartial (h1 n hn).2⟩
+  · rw [List.take_of_length_le (by omega)]
+    have := h1 ops.length (by omega)
+    rw [List.take_length] at this
+    exact ⟨(keysB_iff _).1 this.1, pfStable_of_noPartial this.2⟩
+
+/-! ### a duplicate write is rejected -/
+
+theorem dup_write_rejected_alt (now : Int) (c : Coll) (d : Val) (ix : Index) (p : Val × Val)
     (hs : ScalarInv c) (hix : ix ∈ c.indexes) (hu : ix.unique = true) (hnt : c.ttlIndexes = [])
     (hp : p ∈ c.docs) (hcp : covers ix p.2 = true) (hcd : covers ix (patchDT d) = true)
     (hsd : scalarKeys ix (patchDT d) = true)
     (heq : keyEq (keyVals ix p.2) (keyVals ix (patchDT d)) = true)
     (hid : ∃ fs, d = .doc fs ∧ dhas "_id" fs = true) :
-    ∃ e, insertDoc now c d = .error e ∧ e.isWriteError = true := by sorry
+    ∃ e, insertDoc now c d = .error e := by
+  obtain ⟨fs, rfl, hid⟩ := hid
+  obtain ⟨hdf, hsc⟩ := hs ix hix hu
+  cases h : insertDoc now c (.doc fs) with
+  | error e => exact ⟨e, rfl⟩
+  | ok r =>
+    obtain ⟨c', id⟩ := r
+    exact absurd h (insert_dup_rejected now c fs ix p hdf (hsc p hp) hix hu hnt hp hcp hcd hsd heq
+      hid c' id)
+
+theorem dup_write_rejected_dupkey_alt (now : Int) (c : Coll) (d : Val) (ix : Index) (p : Val × Val)
+    (hs : ScalarInv c) (hix : ix ∈ c.indexes) (hu : ix.unique = true) (hnt : c.ttlIndexes = [])
+    (hp : p ∈ c.docs) (hcp : covers ix p.2 = true) (hcd : covers ix (patchDT d) = true)
+    (hsd : scalarKeys ix (patchDT d) = true)
+    (heq : keyEq (keyVals ix p.2) (keyVals ix (patchDT d)) = true)
+    (hid : ∃ fs, d = .doc fs ∧ dhas "_id" fs = true)
+    (hk : ∃ k, storeKey (idOfDoc (patchDT d)) = .ok k)
+    (hone : ∀ i ∈ c.indexes, i.unique = true → i = ix)
+    (hpf : ∀ f, ix.partialFilter = some f → ∀ q ∈ c.docs, ∃ b, filterApplies f q.2 = .ok b) :
+    insertDoc now c d = .error .dupKey := by
+  obtain ⟨fs, rfl, hid⟩ := hid
+  obtain ⟨k, hk⟩ := hk
+  obtain ⟨hdf, hsc⟩ := hs ix hix hu
+  exact insert_dup_dupKey now c fs ix p k hdf hsc hix hu hnt hp hcp hcd hsd heq hid hk hone hpf
+
+/-! ### `create_index` -/
 
 theorem create_over_dups_fails_clean (now : Int) (c : Coll) (ix : Index) (a b : Val × Val)
     (hu : ix.unique = true) (hnt : c.ttlIndexes = []) (hnew : ∀ i ∈ c.indexes, i.name ≠ ix.name)
@@ -27,12 +169,33 @@ theorem create_over_dups_fails_clean (now : Int) (c : Coll) (ix : Index) (a b : 
     (hab : [a, b].Sublist c.docs)
     (heq : keyEq (keyVals ix a.2) (keyVals ix b.2) = true) :
     (createIndexColl now c ix).2 = .error .dupKey ∧
-    (createIndexColl now c ix).1.indexes = c.indexes := by sorry
+    (createIndexColl now c ix).1.indexes = c.indexes := by
+  rw [create_over_dups now c ix a b hu hnt hnew hsc hpf hns hab heq]
+  exact ⟨rfl, rfl⟩
 
 theorem create_establishes_uniq (now : Int) (c c' : Coll) (ix : Index) (name : String)
-    (hu : ix.unique = true) (hsc : ∀ p ∈ c.docs, scalarKeys ix p.2 = true)
-    (hpf : ix.partialFilter = none) (hns : ix.sparse = false)
+    (hu : ix.unique = true) (hpf : ix.partialFilter = none) (hns : ix.sparse = false)
     (h : createIndexColl now c ix = (c', .ok name)) :
-    c'.docs.Pairwise (fun a b => keyEq (keyVals ix a.2) (keyVals ix b.2) = false) := by sorry
+    c'.docs.Pairwise (fun a b => keyEq (keyVals ix a.2) (keyVals ix b.2) = false) :=
+  create_pairwise hu hpf hns h
+
+/-- for any unique index (sparse, partial): a successful creation leaves no two covered
+    documents with equal keys -/
+theorem create_establishes_uniq_covered (now : Int) (c c' : Coll) (ix : Index) (name : String)
+    (hu : ix.unique = true) (h : createIndexColl now c ix = (c', .ok name)) :
+    (c'.docs.filter (fun p => covers ix p.2)).Pairwise
+      (fun a b => keyEq (keyVals ix a.2) (keyVals ix b.2) = false) := by
+  obtain ⟨c1, hpre, hd⟩ := createIndex_ok_shape h
+  obtain ⟨_, hp⟩ := preCreate_ok hpre
+  rw [hd, List.pairwise_iff_forall_sublist]
+  intro a b hab
+  obtain ⟨hab', ca, cb⟩ := sublist_pair_filter.1 hab
+  exact (precheck_ok ix c1.docs [] (hp hu)).2 a b hab' ca cb
+
+/-! ### the unrestricted statements fail -/
+
+theorem step_uniq_inv_full_false :
+    ¬ (∀ (cfg : Cfg) (now : Int) (c : Coll) (op : Val), UniqInv c → UniqInv (stepColl cfg now c op).1) :=
+  step_uniq_false
 
 end MongoModel.Proofs.C06
